@@ -33,6 +33,7 @@ pub mod checks;
 pub mod report;
 pub mod sa;
 pub mod sa_checks;
+pub mod sa_meta;
 pub mod c09;
 pub mod sc;
 pub mod workload;
